@@ -41,6 +41,7 @@ type pGen struct {
 	hashBias bool
 	noFail   bool
 	noAssign bool
+	noReturn bool   // no bare return: it also leaves the blocks around it, so a body is not the same at top level and inside a block
 	partials bool   // may call partial("pp") / partial("pq") (the context must have a feeder)
 	salt     string // makes regular-expression patterns unique per program
 	inLoop   int
@@ -241,6 +242,13 @@ func (g *pGen) stmt(depth int) []pUnit {
 		defer func() { g.ints, g.strs, g.fns = saveI, saveS, saveF }()
 		out = append(out, g.stmts(depth-1, g.r.Range(1, 3))...)
 		g.ints, g.strs, g.fns = saveI, saveS, saveF
+		if !g.noReturn && g.r.Chance(1, 6) {
+			// a return without a value as the last statement of the block
+			g.features["bare-return"] = true
+			u := tag("<%", false, "return")
+			u.glueOK = true
+			out = append(out, u)
+		}
 		for e := g.r.Intn(3); e > 0; e-- {
 			g.features["else-if"] = true
 			u := tag("<%", false, append(append([]string{"}", "else", "if", "("}, g.cond(1)...), ")", "{")...)
